@@ -38,6 +38,32 @@ fn scratch_dir(tag: &str) -> PathBuf {
     dir.canonicalize().expect("canonical scratch directory")
 }
 
+/// FFI to the armed part of the `zysim` shim (byte-offset faults on real files).
+mod file_faults {
+    type Add = unsafe extern "C" fn(*const libc::c_char, i32, libc::c_long, i32, i32) -> i32;
+    type Clear = unsafe extern "C" fn();
+
+    fn symbol(name: &[u8]) -> *mut libc::c_void {
+        unsafe { libc::dlsym(libc::RTLD_DEFAULT, name.as_ptr() as *const libc::c_char) }
+    }
+
+    pub fn add(path: &str, write: bool, offset: usize, kind: i32, errno: i32) {
+        let function = symbol(b"zysim_file_plan_add\0");
+        assert!(!function.is_null(), "the zysim shim lacks zysim_file_plan_add");
+        let function: Add = unsafe { std::mem::transmute(function) };
+        let path = std::ffi::CString::new(path).expect("path without NUL");
+        unsafe { function(path.as_ptr(), write as i32, offset as libc::c_long, kind, errno) };
+    }
+
+    pub fn clear() {
+        let function = symbol(b"zysim_file_plan_clear\0");
+        if !function.is_null() {
+            let function: Clear = unsafe { std::mem::transmute(function) };
+            unsafe { function() };
+        }
+    }
+}
+
 /// What one execution of the real interpreter produced.
 struct Observed {
     log: Vec<u8>,
@@ -107,9 +133,15 @@ fn execute_real(dir: &PathBuf, script: &Script, plan: &Plan, program: &str) -> O
     };
     let mut input = BufReader::with_capacity(plan.in_buffer.max(1), SimIn::new(&script.stdin, plan));
     let mut output = SimOut::new(plan);
+    // arm the shim's file-fault plan around the interpreter run only
+    for (name, write, offset, fault) in &plan.file_faults {
+        let (kind, errno) = fault.shim();
+        file_faults::add(&dir.join(name).to_string_lossy(), *write, *offset, kind, errno);
+    }
     let result = catch_unwind(AssertUnwindSafe(|| {
         zydeco_dynamics::Runtime::new(&mut input, &mut output, &[], dynamics).run()
     }));
+    file_faults::clear();
     match result {
         | Ok(zydeco_dynamics::ProgKont::ExitCode(code)) => observed.exit = format!("exit({code})"),
         | Ok(zydeco_dynamics::ProgKont::Dry) => observed.exit = "dry".into(),
@@ -334,7 +366,9 @@ fn run(args: &[String]) {
             ));
             for (direction, list) in [("stdin", &stats["faults_fired_in"]), ("stdout", &stats["faults_fired_out"])] {
                 for fault in list.as_array().into_iter().flatten() {
-                    *fault_kinds.entry(format!("{direction}:{}", fault.as_str().unwrap_or("?"))).or_default() += 1;
+                    let label = fault.as_str().unwrap_or("?");
+                    let key = if label.starts_with("file-") { label.to_string() } else { format!("{direction}:{label}") };
+                    *fault_kinds.entry(key).or_default() += 1;
                 }
             }
         }
@@ -398,6 +432,26 @@ fn run(args: &[String]) {
             }
             for chunk in [1usize, 2, 7] {
                 plans.push(clean.with_chunks(chunk));
+            }
+            // real files: every offset of every input file that is opened, every offset of the
+            // fault-free final contents of every output file that is written
+            for (name, bytes) in &script.input_files {
+                if script.opens_input(name) {
+                    for position in 0..=bytes.len() {
+                        for fault in device::FileFault::all_read() {
+                            plans.push(clean.with_file_fault(name, false, position, fault));
+                        }
+                    }
+                }
+            }
+            for (name, contents) in &expectation.files {
+                if let Some(contents) = contents {
+                    for position in 0..=contents.len() {
+                        for fault in device::FileFault::all_write() {
+                            plans.push(clean.with_file_fault(name, true, position, fault));
+                        }
+                    }
+                }
             }
             for plan in plans {
                 fault_positions += 1;
